@@ -22,11 +22,20 @@ SEL_USERS = (1, 2)
 RUNNERS = ("RunString", "RunFile", "RunAccumulated", "LoadDatabase", "LoadDatabaseString")
 
 BANNER = re.compile(r"-+\nEnd of Run after [0-9.eE+-]+ Seconds\.\n-+\n")
+# the not-found messages of RATE_PK / RATE_SVD / RATE_HERMANSKA / MEANG print the name from a buffer that has already been
+# freed (PBasic.cpp: PHRQ_free(min_name) precedes "oss << min_name"): the text after "for " is heap garbage
+FREED = re.compile(r"((?:PK|SVD|Hermanska) rate parameters not found for |No definition in MEAN_GAMMAS found for )[^\n]*")
 DEFNAME = re.compile(r"^(phreeqc|dump|selected_\d+)\.\d+\.(out|err|log)$")
 
 
 def mask_text(s):
-    return BANNER.sub("<end-of-run banner>\n", s) if isinstance(s, str) and "End of Run" in s else s
+    if not isinstance(s, str):
+        return s
+    if "End of Run" in s:
+        s = BANNER.sub("<end-of-run banner>\n", s)
+    if " found for " in s:
+        s = FREED.sub(r"\1<name>", s)
+    return s
 
 
 def mask_name(n):
@@ -40,6 +49,8 @@ def do_step(d, st):
         return d.call("s0", "c", fn, A.dbpath(st[1]))
     if fn == "LoadDatabaseString":
         return d.call("s0", "c", fn, A.dbtext(st[1]))
+    if fn == "writefile":
+        return d.cmd("writefile", st[1], st[2])
     return d.call("s0", "c", fn, *st[1:])
 
 
@@ -187,37 +198,55 @@ def step_cmd(st):
         return ("call", "s0", "c", fn, A.dbpath(st[1]))
     if fn == "LoadDatabaseString":
         return ("call", "s0", "c", fn, A.dbtext(st[1]))
+    if fn == "writefile":
+        return ("writefile", st[1], st[2])
     return ("call", "s0", "c", fn) + tuple(st[1:])
 
 
-def forked_probe(d, steps):
-    """One probe on a forked copy of the instance: remove files, the probe's calls, full observation."""
+def forked_chain(d, names):
+    """The probes `names` one after the other on one forked copy of the instance; before each probe the files are removed
+    (not before 'none': it also sees what the load itself wrote), after each probe everything is observed."""
     d.fork()
-    cmds = [("rmfiles",)] + [step_cmd(st) for st in steps] + [("obs", "s0", "c", OBS_FLAGS), ("files",), ("endfork",)]
+    cmds, layout = [], []
+    for p in names:
+        steps = A.P[p]
+        cmds.append(("ping",) if p == "none" else ("rmfiles",))
+        cmds += [step_cmd(st) for st in steps]
+        cmds += [("obs", "s0", "c", OBS_FLAGS), ("files",)]
+        layout.append((p, steps))
+    cmds.append(("endfork",))
     reps = batch(d, cmds)
     if "endfork" not in reps[-1]:
         raise RuntimeError("endfork failed: %r" % (reps[-1],))
-    rcs = []
-    for st, r in zip(steps, reps[1:1 + len(steps)]):
-        if "exc" in r:
-            raise RuntimeError("vdrv: %s (%s)" % (r["exc"], st[0]))
-        if st[0] in RUNNERS:
-            rcs.append(r["r"] if "r" in r else r)
-    return canon(reps[-3], reps[-2]["files"], rcs)
+    out, k = {}, 0
+    for p, steps in layout:
+        k += 1
+        rcs = []
+        for st in steps:
+            r = reps[k]
+            k += 1
+            if "exc" in r:
+                raise RuntimeError("vdrv: %s (%s)" % (r["exc"], st[0]))
+            if st[0] in RUNNERS:
+                rcs.append(r["r"] if "r" in r else r)
+        out[p] = canon(reps[k], reps[k + 1]["files"], rcs)
+        k += 2
+    return out
 
 
-def run_probes(d):
-    """Every probe on a forked copy of the instance in slot 0 -> {probe: observation}.  The probes of A.BARE see the
-    instance exactly as the load left it; then every sink is switched on (on the instance itself: the same later calls
-    on both sides) and the remaining probes run, each on its own forked copy."""
+def run_probes(d, variant="rel"):
+    """-> {probe: observation}.  The chain 'bare' sees the instance exactly as the load left it; then every sink is
+    switched on (on the instance itself: the same later calls on both sides) and the other chains run."""
     out = {}
-    for p in A.PROBE_ORDER:
-        if p in A.BARE:
-            out[p] = forked_probe(d, A.P[p])
-    play(d, A.ALL_ON)
-    for p in A.PROBE_ORDER:
-        if p not in A.BARE:
-            out[p] = forked_probe(d, A.P[p])
+    first = True
+    for cname, names in A.chains(variant):
+        if not first and "ALL_ON" not in out:
+            play(d, A.ALL_ON)
+            out["ALL_ON"] = True
+        first = False
+        if names:
+            out.update(forked_chain(d, names))
+    out.pop("ALL_ON", None)
     return out
 
 
@@ -239,8 +268,7 @@ def reference(variant, load, sv):
         rc = do_step(d, A.LOADS[load])
         if rc != 0:
             raise RuntimeError("reference load %s failed" % load)
-        d.cmd("rmfiles")
-        _ref[key] = run_probes(d)
+        _ref[key] = run_probes(d, variant)
         b = _ref[key]
         # vacuity guards: the probes really produce the observables the comparison relies on
         if load != "none":
@@ -297,19 +325,18 @@ def post_load(variant, ops, fail, load):
             allrc.append(rcs)
         # the stated form: successful calls, then at most one failing call
         in_scope = all(oks[:-1]) and (not oks or oks[-1] or fail is None)
-        d.fork()
-        try:
-            sv = survivors(d)
-            pre = core.sha(json.dumps([observe(d, []), sv], sort_keys=True))
-        finally:
-            d.endfork()
+        phase = "observation before the load"
+        d.fork()                  # (a driver death inside the fork restarts the driver: no endfork then)
+        sv = survivors(d)
+        pre = core.sha(json.dumps([observe(d, []), sv], sort_keys=True))
+        d.endfork()
         phase = "load"
+        d.cmd("rmfiles")          # whatever exists after the load was written by the load
         rc = do_step(d, A.LOADS[load])
         res = {"in_scope": in_scope, "oks": oks, "fail_failed": fail_failed, "pre": pre, "sv": sv, "load_rc": rc, "rcs": allrc, "obs": None}
         if rc == 0:
-            d.cmd("rmfiles")
             phase = "probes"
-            res["obs"] = run_probes(d)
+            res["obs"] = run_probes(d, variant)
         res["script"] = d.script()
         return res
     except (drv.DrvDied, drv.DrvTimeout) as e:
@@ -337,6 +364,8 @@ def compare(obsA, obsB):
     """-> (signature: sorted list of 'group(detail)', details: list of text lines)"""
     sig, details = {}, []
     for p in A.PROBE_ORDER:
+        if p not in obsA and p not in obsB:
+            continue
         a, b = obsA[p], obsB[p]
         for ch in sorted(set(a) | set(b)):
             if a.get(ch) == b.get(ch):
@@ -400,17 +429,21 @@ def label(sel):
 
 def run_case(case):
     variant, ops, fail, load = case.get("variant", "rel"), case["hist"], case.get("fail"), case["load"]
-    n_ops = 2 + len(ops) + (1 if fail else 0) + len(A.PROBE_ORDER)
+    n_ops = 2 + len(ops) + (1 if fail else 0) + len(A.probes(variant))
     base = {"case": case, "ops": n_ops, "states": [], "problems": [], "diagnostics": []}
+    if core._drvs.get((variant, False)) is None:
+        # a brand-new driver process (first case of a worker, or the replay-before-report re-runs): nothing may be reused
+        _ref.clear()
+        _sub_cache.clear()
     d = core.get_drv(variant)
     try:
         res, sig, det = judged(variant, ops, fail, load)
     except Crash as c:
         base["script"] = "\n".join(getattr(d, "dead_log", [])) + "\n"
         base["outcome"] = "crash:" + c.phase
-        if c.phase == "history":
+        if c.phase in ("history", "observation before the load"):
             base["not_completed"] = True
-            base["diagnostics"].append("driver died during the history (before the load; C08's subject): %s ; history %s" % (c.summary, label([("S", o) for o in ops] + ([("F", fail)] if fail else []))))
+            base["diagnostics"].append("driver died before the load (not C07's subject): %s ; history %s" % (c.summary, label([("S", o) for o in ops] + ([("F", fail)] if fail else []))))
         else:
             base["problems"].append(("crash in %s after history [%s]: %s" % ("the load" if c.phase == "load" else "a probe", label([("S", o) for o in ops] + ([("F", fail)] if fail else [])), c.summary),
                                      "the driver process died in phase %s (%s) after the history %s and load %s; a new instance runs the same load and probes normally" % (c.phase, c.summary, ops + ([fail] if fail else []), load)))
@@ -463,7 +496,7 @@ def run_case(case):
 S_ALL = list(A.S)
 F_ALL = list(A.F)
 # ops whose residue is most likely to interact (used for the depth-3 bound)
-HEAVY = ["t80", "kin", "trs", "trm", "so2", "knobs", "prreset", "defs", "redef", "incr", "save", "db_pitzer", "sw_on", "names"]
+HEAVY = ["t80", "kin", "trs", "trm", "so2", "knobs", "prreset", "defs", "redef", "save", "db_pitzer", "sw_on"]
 
 
 def order_key(c):
@@ -490,18 +523,23 @@ def mk(hists, fails, loads, variant="rel"):
 def bounds(tier):
     """-> list of (name, cases)"""
     fails = [None] + F_ALL
+    loads = list(A.LOADS)
+    d01 = histories(S_ALL, 0) + histories(S_ALL, 1)
+    file_loads = ["phreeqc", "pitzer"]
     if tier == "quick":
         return [
-            ("depth<=1: (op)? (failing op)? x 3 loads", mk(histories(S_ALL, 0) + histories(S_ALL, 1), fails, list(A.LOADS))),
-            ("depth 2: op op x LoadDatabase(phreeqc.dat | pitzer.dat)", mk(histories(S_ALL, 2), [None], ["phreeqc", "pitzer"])),
+            ("depth<=1: (op)? (failing op)? x LoadDatabase(phreeqc.dat | pitzer.dat); (op)? x LoadDatabaseString(phreeqc.dat)",
+             sorted(mk(d01, fails, file_loads) + mk(d01, [None], ["phreeqc-str"]), key=order_key)),
+            ("depth 2: op op x LoadDatabase(phreeqc.dat)", mk(histories(S_ALL, 2), [None], ["phreeqc"])),
         ]
     return [
-        ("depth<=1: (op)? (failing op)? x 3 loads", mk(histories(S_ALL, 0) + histories(S_ALL, 1), fails, list(A.LOADS))),
-        ("depth 2: op op (failing op)? x LoadDatabase(phreeqc.dat | pitzer.dat)", mk(histories(S_ALL, 2), fails, ["phreeqc", "pitzer"])),
-        ("depth 2: op op x LoadDatabaseString(phreeqc.dat)", mk(histories(S_ALL, 2), [None], ["phreeqc-str"])),
-        ("depth 3 over the %d residue-heavy ops: op op op (f_basic | f_trans)? x 2 loads" % len(HEAVY), mk(histories(HEAVY, 3), [None, "f_basic", "f_trans"], ["phreeqc", "pitzer"])),
-        ("sanitizer build, depth<=1: (op)? (failing op)? x 3 loads", mk(histories(S_ALL, 0) + histories(S_ALL, 1), fails, list(A.LOADS), "san")),
-        ("sanitizer build, depth 2 over the residue-heavy ops, (failing op)?, phreeqc.dat", mk(histories(HEAVY, 2), fails, ["phreeqc"], "san")),
+        ("depth<=1: (op)? (failing op)? x 3 loads", mk(d01, fails, loads)),
+        ("depth 2: op op x 3 loads", mk(histories(S_ALL, 2), [None], loads)),
+        ("depth 2 + failing op: op op (failing op) x LoadDatabase(phreeqc.dat)", mk(histories(S_ALL, 2), F_ALL, ["phreeqc"])),
+        ("depth 3 over the %d residue-heavy ops: op op op (f_basic | f_trans)? x LoadDatabase(phreeqc.dat | pitzer.dat)" % len(HEAVY),
+         mk(histories(HEAVY, 3), [None, "f_basic", "f_trans"], ["phreeqc", "pitzer"])),
+        ("sanitizer build, depth<=1: (op)? (failing op)? x 3 loads", mk(d01, fails, loads, "san")),
+        ("sanitizer build, depth 2 over the residue-heavy ops, (failing op)?, LoadDatabase(phreeqc.dat)", mk(histories(HEAVY, 2), fails, ["phreeqc"], "san")),
     ]
 
 
@@ -511,28 +549,33 @@ def run(tier):
     ev.assumptions = [
         "the survivors of a load (9 global output switches, output/error/log/dump and selected-output 1,2 file names) are read through the getters just before the load and given to the brand-new reference instance through the setters before its load",
         "default file names contain the instance id: masked as NAME.ID.ext (names only, never contents); the 'End of Run after x Seconds' banner and its dash rows are masked",
-        "each probe runs in a forked copy of the driver process, so every probe sees the untouched post-load instance; files are removed before each probe",
+        "probes run in %d chains; every chain starts on its own forked copy of the untouched post-load instance, so the first probe of a chain is the first call after the load; files are removed before each probe" % len(A.CHAINS),
         "histories start on phreeqc.dat; an op that is meant to succeed but fails before the end of a history puts the history outside the stated form (counted as out_of_scope, differences only reported as diagnostics)",
         "line accessors are not compared (they are a function of the strings: C09); line counts are",
         "no constant was taken from the implementation: the oracle is purely differential",
     ]
-    pool = core.Pool()
-    dl = core.Deadline(170 if tier == "quick" else 1700)
-    total = completed = oos = 0
-    samples_diff = []
+    # hard limits of the tiers (a bound that is cut is reported as not completed); C07_DEADLINE overrides (development on a loaded machine)
+    dl = core.Deadline(float(os.environ.get("C07_DEADLINE", 170 if tier == "quick" else 1700)))
+    total = 0
+    pool = None
     for name, cs in bounds(tier):
         for v in sorted(set(c["variant"] for c in cs)):
             build.ensure(v)
+            drv.exe(v)
         if dl.passed():
-            ev.bound(name, False, cases=len(cs))
+            ev.bound(name, False, cases=len(cs), executed=0)
             continue
+        # a new pool per bound: the workers inherit the fingerprints that earlier bounds already reported (one line per mechanism)
+        _already.update(fp for fp, _ in findings.violations)
+        _already.update(findings.known_hits)
+        pool = core.Pool()
         n0, nc0 = ev.traces, ev.not_completed
-        done = core.explore_cases(cs, run_case_counted, ev, findings, pool, chunksize=6, deadline=dl)
+        done = core.explore_cases(cs, run_case_counted, ev, findings, pool, chunksize=4, deadline=dl)
+        pool.close()
         ev.bound(name, done, cases=len(cs), executed=ev.traces - n0, not_completed=ev.not_completed - nc0)
         total += ev.traces - n0
-    oos = sum(1 for d_ in ev.diagnostics if "not of the stated form" in d_)
     ev.extra["alphabet"] = {"successful_ops": S_ALL, "failing_ops": F_ALL, "loads": {k: "%s(%s)" % v for k, v in A.LOADS.items()},
-                            "probes": A.PROBE_ORDER, "residue_heavy_ops": HEAVY}
+                            "probe_chains": A.CHAINS, "residue_heavy_ops": HEAVY}
     ev.extra["lattice_points"] = total
     ev.extra["completed_runs"] = ev.traces - ev.not_completed
     ev.extra["engine_calls_per_case"] = "2 loads + history + %d probes" % len(A.PROBE_ORDER)
@@ -541,12 +584,17 @@ def run(tier):
         raise SystemExit("C07 harness error: only %d distinct pre-load states" % len(ev.states))
     if ev.traces and ev.not_completed > 0.1 * ev.traces:
         raise SystemExit("C07 harness error: %d of %d cases not completed" % (ev.not_completed, ev.traces))
-    pool.close()
     return core.finish(ev, findings)
 
 
+_already = set()
+
+
 def run_case_counted(case):
-    return run_case(case)
+    res = run_case(case)
+    if _already and res["problems"]:
+        res["problems"] = [p for p in res["problems"] if p[0] not in _already]
+    return res
 
 
 def replay(path):
